@@ -21,3 +21,98 @@ pub fn note_rejection(r: Rejection) {
 pub fn take_rejection() -> Rejection {
     LAST_REJECTION.with(|c| c.replace(Rejection::None))
 }
+
+/// Read-only copy of one memory area.
+#[derive(Debug, Clone, PartialEq, Eq)]
+pub struct AreaView {
+    pub start: u64,
+    pub length: u64,
+    pub access: u32,
+    pub name: Option<String>,
+    pub data: Vec<u8>,
+}
+
+/// Structured copy of one trace entry. `variant`: 0 = call, 1 = return, 2 = jump.
+#[derive(Debug, Clone, PartialEq, Eq)]
+pub struct TraceView {
+    pub instr_ip: u64,
+    pub target: u64,
+    pub variant: u8,
+    pub level: i16,
+    pub count: u64,
+}
+
+impl crate::axecutor::Axecutor {
+    pub fn verif_rflags(&self) -> u64 {
+        self.state.rflags
+    }
+
+    pub fn verif_set_rflags(&mut self, value: u64) {
+        self.state.rflags = value;
+    }
+
+    pub fn verif_finished(&self) -> bool {
+        self.state.finished
+    }
+
+    pub fn verif_executed_instructions_count(&self) -> u64 {
+        self.state.executed_instructions_count
+    }
+
+    pub fn verif_max_instructions(&self) -> Option<u64> {
+        self.state.max_instructions
+    }
+
+    pub fn verif_code_end_addr(&self) -> u64 {
+        self.code_end_addr
+    }
+
+    pub fn verif_stack_top(&self) -> u64 {
+        self.stack_top
+    }
+
+    pub fn verif_hooks_running(&self) -> bool {
+        self.hooks.running
+    }
+
+    pub fn verif_call_stack(&self) -> Vec<u64> {
+        self.state.call_stack.clone()
+    }
+
+    pub fn verif_trace(&self) -> Vec<TraceView> {
+        use crate::helpers::trace::TraceVariant;
+        self.state
+            .trace
+            .iter()
+            .map(|e| TraceView {
+                instr_ip: e.instr_ip,
+                target: e.target,
+                variant: match e.variant {
+                    TraceVariant::Call => 0,
+                    TraceVariant::Return => 1,
+                    TraceVariant::Jump => 2,
+                },
+                level: e.level,
+                count: e.count,
+            })
+            .collect()
+    }
+
+    pub fn verif_symbols(&self) -> Vec<(u64, String)> {
+        self.symbol_table
+            .iter()
+            .map(|(a, n)| (*a, n.clone()))
+            .collect()
+    }
+
+    pub fn verif_areas(&self) -> Vec<AreaView> {
+        self.state.memory.iter().map(|a| a.verif_view()).collect()
+    }
+
+    /// Calls `f(start, access, data)` for every area without copying.
+    pub fn verif_for_each_area<F: FnMut(u64, u32, &[u8])>(&self, mut f: F) {
+        for a in &self.state.memory {
+            a.verif_with(&mut f);
+        }
+    }
+}
